@@ -224,6 +224,10 @@ def run(ctx):
                 chunk = []
         if chunk:
             check_model(ctx, sc, dict(root=base, ctcs=[(f"c{i}", x) for i, x in enumerate(chunk)]), w, p, r, "exh-ctc")
+        for m in gen.nest_models(AFM_OPS, chunk=4):
+            check_model(ctx, sc, m, w, p, r, "nest-ctc")
+        for m in gen.case_twin_models(names=("Xa", "XA", "Yb", "YB")):    # WORD tokens start with a capital
+            check_model(ctx, sc, m, w, p, r, "case-twins")
     finally:
         sc.close()
 
